@@ -483,9 +483,10 @@ def check_matcher_factory(chk, ix):
     chk.rule("M6", WHAT["M6"])
     fc = ix.cls("behave.matchers:StepMatcherFactory")
     ops = [("use_step_matcher", "re"), ("use_step_matcher", "cfparse"), ("use_current_step_matcher_as_default", None),
-           ("use_default_step_matcher", None), ("use_default_step_matcher", "cfparse")]
+           ("use_default_step_matcher", None), ("use_default_step_matcher", "cfparse"), ("reset", None)]
     classes = {"parse": "PARSE-CLASS", "cfparse": "CFPARSE-CLASS", "re": "RE-CLASS"}
-    it = Interp(ix, name="StepMatcherFactory")
+    # reset() (a new run in the same process) puts both registers back to the initial matcher
+    it = Interp(ix, stubs={"StepMatcherFactory.clear_registered_types": lambda it_, s_, a, k, n: [(s_, "val", None)]}, name="StepMatcherFactory")
     it.int_sat = 100
     it.list_cap = 100
     n = 0
@@ -511,7 +512,9 @@ def check_matcher_factory(chk, ix):
                 if len(outs) != 1 or outs[0][1] != "val":
                     raise AnalysisError("StepMatcherFactory.%s not evaluable: %r" % (op, [(k, v) for _, k, v in outs][:2]))
                 cur = outs[0][0]
-                if op == "use_step_matcher":
+                if op == "reset":
+                    default = current = classes["parse"]
+                elif op == "use_step_matcher":
                     current = classes[arg]
                 elif op == "use_current_step_matcher_as_default":
                     default = current
